@@ -57,6 +57,45 @@ class Mask:
         return f"Mask({self.truth}, {self.n})"
 
 
+class Grid:
+    """A user container indexed by a TUPLE key: g[i, j] is a cell, which is not the same thing as g[i][j]
+    (g[i] is a row object).  Stands for mappings keyed by tuples and for multi-axis indexing."""
+
+    def __init__(self, tag: str) -> None:
+        self.tag = tag
+
+    def __getitem__(self, k: Any) -> Any:
+        if isinstance(k, tuple):
+            return ("cell", self.tag) + k
+        return _Row(self.tag, k)
+
+    def __eq__(self, other: Any) -> bool:
+        return isinstance(other, Grid) and other.tag == self.tag
+
+    def __hash__(self) -> int:
+        return hash(("Grid", self.tag))
+
+    def __repr__(self) -> str:
+        return f"Grid({self.tag})"
+
+
+class _Row:
+    def __init__(self, tag: str, i: Any) -> None:
+        self.tag, self.i = tag, i
+
+    def __getitem__(self, j: Any) -> Any:
+        return ("row-item", self.tag, self.i, j)
+
+    def __eq__(self, other: Any) -> bool:
+        return isinstance(other, _Row) and (other.tag, other.i) == (self.tag, self.i)
+
+    def __hash__(self) -> int:
+        return hash(("Row", self.tag, self.i))
+
+    def __repr__(self) -> str:
+        return f"Row({self.tag}, {self.i})"
+
+
 def enc(v: Any) -> Any:
     if isinstance(v, Mask):
         return {"M": [v.truth, v.n]}
@@ -111,6 +150,8 @@ def compute(fn: str, spec: Dict[str, Any], site: Optional[str], args: Tuple[Any,
         }
     if kind == "str":
         return "s" + term(fn, full, kwargs)[1][:4]
+    if kind == "grid":
+        return Grid(term(fn, full, kwargs)[1])
     if kind == "int":
         return zlib.crc32(_canon((fn, full, tuple(sorted(kwargs.items())))).encode()) % 6 + 1
     if kind == "id":
@@ -228,6 +269,11 @@ def sites_of(P: Dict[str, Any], deep: bool = True) -> List[str]:
     return out
 
 
+def _key(k: Any) -> Any:
+    """An index key of the IR: a list (JSON) stands for a tuple key, x[i, j]."""
+    return tuple(k) if isinstance(k, (list, tuple)) else k
+
+
 def _ev_build(e: Any, env: Dict[str, Any]) -> Any:
     tag = e[0]
     if tag == "v" or tag == "p":
@@ -235,7 +281,7 @@ def _ev_build(e: Any, env: Dict[str, Any]) -> Any:
     if tag == "c":
         return dec(e[1])
     if tag == "i":
-        return _ev_build(e[1], env)[e[2]]
+        return _ev_build(e[1], env)[_key(e[2])]
     raise ValueError(e)
 
 
@@ -390,7 +436,7 @@ def _ev_ref(e: Any, env: Dict[str, Any]) -> Any:
             return NOTRUN
         if isinstance(base, _Lazy):
             return base.index(e[2])
-        return base[e[2]]
+        return base[_key(e[2])]
     raise ValueError(e)
 
 
